@@ -742,6 +742,19 @@ def main():
     inconclusive = [h for h in hs if results[h["name"]]["status"] == "inconclusive"]
     wall = time.time() - t_start
 
+    # harnesses that decided on the tree the committed baseline was recorded on but do not decide now: the exit
+    # code cannot flag this (there is no counterexample), so it is at least said out loud and put into the evidence
+    regressed = []
+    try:
+        base = json.load(open(os.path.join(VERIF, "run", "baseline_status.json")))
+    except Exception:
+        base = {}
+    for h in hs:
+        r = results[h["name"]]
+        if base.get(h["name"]) == "discharged" and r["status"] == "inconclusive":
+            regressed.append(h["name"])
+            log(f"NOTE {h['name']} decided on the baseline tree but is inconclusive now ({r['reason'][:100]}): "
+                f"its part of {prop} is NOT decided by this run")
     if a.status_out:
         json.dump({h["name"]: [results[h["name"]]["status"], round(results[h["name"]]["wall_s"]), results[h["name"]]["reason"][:160]]
                    for h in hs}, open(a.status_out, "w"), indent=1)
